@@ -45,6 +45,29 @@ thread_local! {
     static LAST_PANIC: RefCell<Option<String>> = const { RefCell::new(None) };
 }
 
+// Watchdog: milliseconds (since process start, +1) at which the current case began; 0 = no case running.
+static CASE_START_MS: std::sync::atomic::AtomicU64 = std::sync::atomic::AtomicU64::new(0);
+static PROCESS_START: std::sync::OnceLock<Instant> = std::sync::OnceLock::new();
+
+fn now_ms() -> u64 {
+    PROCESS_START.get_or_init(Instant::now).elapsed().as_millis() as u64 + 1
+}
+
+/// A library call that does not return is a failure to give the defined answer. Every case announces
+/// itself; if one case runs longer than the limit (far above anything a correct library needs), the
+/// worker reports a hang and exits with status 3 so that the coordinator can pin and replay the case.
+fn spawn_watchdog(limit_s: u64, build: String) {
+    let _ = now_ms();
+    std::thread::spawn(move || loop {
+        std::thread::sleep(std::time::Duration::from_millis(500));
+        let start = CASE_START_MS.load(std::sync::atomic::Ordering::Relaxed);
+        if start != 0 && now_ms().saturating_sub(start) > limit_s * 1000 {
+            emit(&json!({"t": "hang", "limit_s": limit_s, "build": build}));
+            std::process::exit(3);
+        }
+    });
+}
+
 fn install_silent_hook() {
     panic::set_hook(Box::new(|info| {
         let msg = if let Some(s) = info.payload().downcast_ref::<&str>() {
@@ -180,6 +203,7 @@ impl Ctx {
     /// In trace mode, announces the case about to run (so a fatal signal can be pinned to it).
     #[inline]
     pub fn announce(&self, case: impl FnOnce() -> Value) {
+        CASE_START_MS.store(now_ms(), std::sync::atomic::Ordering::Relaxed);
         if self.trace {
             let mut e = std::io::stderr().lock();
             let _ = writeln!(e, "CASE {}", case());
@@ -349,9 +373,12 @@ pub fn run_driver(property: &str, explore: impl FnOnce(&mut Ctx), replay: impl F
     install_silent_hook();
     let args: Vec<String> = std::env::args().collect();
     let mut ctx = Ctx::from_env(property);
+    let limit = env_u64("VERIF_CASE_LIMIT_S", if ctx.tier.is_thorough() { 900 } else { 180 });
+    spawn_watchdog(limit, ctx.build.clone());
     match args.get(1).map(|s| s.as_str()) {
         Some("worker") => {
             let r = guard(|| explore(&mut ctx));
+            CASE_START_MS.store(0, std::sync::atomic::Ordering::Relaxed);
             if let Err(msg) = r {
                 emit(&json!({"t": "harness_panic", "msg": msg, "build": ctx.build, "shard": ctx.shard}));
                 ctx.finish(hook_hits());
@@ -365,7 +392,9 @@ pub fn run_driver(property: &str, explore: impl FnOnce(&mut Ctx), replay: impl F
             let case: Value = serde_json::from_str(&text).expect("case file is not JSON");
             ctx.replaying = true;
             ctx.nshards = 1;
+            CASE_START_MS.store(now_ms(), std::sync::atomic::Ordering::Relaxed);
             let r = guard(|| replay(&mut ctx, &case));
+            CASE_START_MS.store(0, std::sync::atomic::Ordering::Relaxed);
             if let Err(msg) = r {
                 emit(&json!({"t": "harness_panic", "msg": msg, "build": ctx.build}));
                 ctx.finish(hook_hits());
